@@ -113,31 +113,34 @@ def inputKey (inp : Json) : String :=
   | j => j.compress
 
 def stepHist (strict : Bool) (fs : FoldSt) (inp out : Json) : Except String FoldSt := do
-  if fs.mismatch.isSome then return { fs with i := fs.i + 1 } else
-  let op ← opOfJson inp out
-  let o : Outcome :=
-    if fs.facade then
-      let (l, r) := facadeWrite strict { state := fs.state, inUse := fs.inUse } op
-      { state := l.state, resp := r, trace := [] }
-    else forgeLog strict op none false fs.state
-  let inUse' := if fs.facade then (facadeWrite strict { state := fs.state, inUse := fs.inUse } op).1.inUse else fs.inUse
   let resp ← field out "resp"
   let delta ← field out "delta"
   let real' ← applyDelta fs.real delta
   let realTrace ← strArrField out "trace"
   let seqJ ← arrField out "seq"
-  let mk (f : String) (m r : Json) : FoldSt :=
-    { fs with i := fs.i + 1, real := real', mismatch := some { op := fs.i, field := f, model := m, real := r } }
-  -- response
-  let mResp := jResp o.resp
   let rResp := realResp resp
-  if mResp != rResp then return mk "resp" mResp rResp else
-  if !fs.facade && o.trace != realTrace then return mk "trace" (jStrs o.trace) (jStrs realTrace) else
-  let mSeq := Json.arr #[jNat o.state.seq.tx, jNat o.state.seq.log]
-  if mSeq != Json.arr seqJ.toArray then return mk "seq" mSeq (Json.arr seqJ.toArray) else
-  let mTabs := tablesOfDb o.state.db
-  let d := mTabs.diff real'
-  if d ≠ "" then return mk ("snapshot." ++ d) mTabs.toJson real'.toJson else
+  -- the model (skipped once it has diverged: the predicates below only look at the real outputs)
+  let mut mismatch := fs.mismatch
+  let mut state' := fs.state
+  let mut inUse' := fs.inUse
+  if mismatch.isNone then
+    let op ← opOfJson inp out
+    let o : Outcome :=
+      if fs.facade then
+        let (l, r) := facadeWrite strict { state := fs.state, inUse := fs.inUse } op
+        { state := l.state, resp := r, trace := [] }
+      else forgeLog strict op none false fs.state
+    if fs.facade then inUse' := (facadeWrite strict { state := fs.state, inUse := fs.inUse } op).1.inUse
+    state' := o.state
+    let mk (f : String) (m r : Json) : Option Mismatch := some { op := fs.i, field := f, model := m, real := r }
+    let mResp := jResp o.resp
+    let mSeq := Json.arr #[jNat o.state.seq.tx, jNat o.state.seq.log]
+    let mTabs := tablesOfDb o.state.db
+    let d := mTabs.diff real'
+    if mResp != rResp then mismatch := mk "resp" mResp rResp
+    else if !fs.facade && o.trace != realTrace then mismatch := mk "trace" (jStrs o.trace) (jStrs realTrace)
+    else if mSeq != Json.arr seqJ.toArray then mismatch := mk "seq" mSeq (Json.arr seqJ.toArray)
+    else if d ≠ "" then mismatch := mk ("snapshot." ++ d) mTabs.toJson real'.toJson
   -- property predicates on the real outputs
   let rErr := match rResp.getObjVal? "err" with | .ok (.str s) => s | _ => ""
   let rHit := boolFieldD rResp "hit"
@@ -208,7 +211,7 @@ def stepHist (strict : Bool) (fs : FoldSt) (inp out : Json) : Except String Fold
     | none => pure ()
   let tag := opTag inp ++ ":" ++ (if failed then rErr else if rHit then "hit" else if dry then "dry" else "ok")
   let committedTx := fs.committedTx + (if !failed && !dry && !rHit && (opTag inp).startsWith "create" then 1 else 0)
-  return { fs with state := o.state, real := real', i := fs.i + 1, tags := fs.tags ++ [tag], propFail := pf,
+  return { fs with state := state', mismatch := mismatch, real := real', i := fs.i + 1, tags := fs.tags ++ [tag], propFail := pf,
                    sigs := sigs, committedTx := committedTx, inUse := inUse', charts := charts,
                    ikOps := if effective && ik ≠ "" then fs.ikOps ++ [(ik, inputKey inp)] else fs.ikOps }
 
